@@ -32,12 +32,18 @@ use std::panic::AssertUnwindSafe;
 use std::path::{Path, PathBuf};
 use std::sync::Arc;
 
+mod ingleg;
+
 const HEADER_LEN: u64 = 22;
 
 // ------------------------------------------------------------- payloads ----
 struct Pool {
     batches: Vec<RecordBatch>,
     payloads: Vec<Vec<u8>>,
+    /// the first n_model payloads are small and are given to the model; the
+    /// ones behind them are tens of megabytes and are used by the oracle-only
+    /// large-entry family (the bit-by-bit Gallina CRC-32 is too slow for them)
+    n_model: usize,
 }
 
 fn ipc_bytes(batch: &RecordBatch) -> Vec<u8> {
@@ -69,9 +75,12 @@ fn make_pool() -> Pool {
         )
         .unwrap()
     };
-    let batches = vec![b_int(1), b_int(3), b_int(40), b_met(1, "cpu"), b_met(5, "memory_usage_bytes"), b_int(0)];
+    let mut batches = vec![b_int(1), b_int(3), b_int(40), b_met(1, "cpu"), b_met(5, "memory_usage_bytes"), b_int(0)];
+    let n_model = batches.len();
+    batches.push(b_int(2_200_000)); // 17.6 MB of values: IPC payload above 16 MiB
+    batches.push(b_int(4_200_000)); // about 33.6 MB
     let payloads = batches.iter().map(ipc_bytes).collect();
-    Pool { batches, payloads }
+    Pool { batches, payloads, n_model }
 }
 
 fn hex(b: &[u8]) -> String {
@@ -153,7 +162,7 @@ fn decode_ops(s: &str) -> Vec<Op> {
 
 /// the line given to the model: payload table, then the operations
 fn model_line(pool: &Pool, ops: &[Op]) -> String {
-    let mut toks: Vec<String> = pool.payloads.iter().map(|p| format!("P {}", hex(p))).collect();
+    let mut toks: Vec<String> = pool.payloads.iter().take(pool.n_model).map(|p| format!("P {}", hex(p))).collect();
     toks.extend(ops.iter().map(enc_op));
     toks.join(";")
 }
@@ -557,7 +566,7 @@ impl<'a> Impl<'a> {
 /// the oracle failures.
 fn run_impl(rt: &tokio::runtime::Runtime, pool: &Pool, ops: &[Op]) -> (String, Vec<String>, bool) {
     let mut im = Impl::new(rt, pool);
-    let mut toks: Vec<String> = pool.payloads.iter().map(|_| "p".to_string()).collect();
+    let mut toks: Vec<String> = pool.payloads.iter().take(pool.n_model).map(|_| "p".to_string()).collect();
     for (i, op) in ops.iter().enumerate() {
         toks.push(im.exec(i, op));
     }
@@ -613,7 +622,7 @@ fn gen_keep(rng: &mut Rng, report: &mut Report, full: u64, rotates_hint: bool) -
 
 /// ingester-shaped random history with crash points of every class
 fn gen_case(rng: &mut Rng, pool: &Pool, report: &mut Report) -> Vec<Op> {
-    let np = pool.payloads.len() - 1; // the zero-row batch is used rarely
+    let np = pool.n_model - 1; // the zero-row batch is used rarely
     let e0 = entry_size(pool, 1);
     let max = match rng.below(6) {
         0 => 0,                                   // never rotate
@@ -818,6 +827,33 @@ fn sweep_cases(pool: &Pool, report: &mut Report, thorough: bool) -> Vec<(String,
     v
 }
 
+/// one entry of tens of megabytes between small ones (oracle only): reader and
+/// writer must agree on what a complete entry is for every size the writer
+/// acknowledges
+fn large_cases(pool: &Pool, thorough: bool) -> Vec<Vec<Op>> {
+    let big = pool.n_model; // 17.6 MB
+    let huge = pool.n_model + 1; // 33.6 MB
+    let full = entry_size(pool, big);
+    let dflt: u64 = 64 * 1024 * 1024; // WalConfig::default().max_segment_size
+    let mut v = vec![
+        // default segment limit: small, large, small; crash; reopen twice
+        vec![Op::O(dflt), Op::A(1), Op::A(big), Op::A(1), Op::C, Op::O(dflt), Op::R, Op::N, Op::A(1), Op::C, Op::O(dflt), Op::R, Op::N],
+        // the large entry exceeds the segment limit: it gets a segment of its own
+        vec![Op::O(1 << 20), Op::A(1), Op::A(big), Op::A(1), Op::C, Op::O(1 << 20), Op::R, Op::N, Op::A(1), Op::C, Op::O(1 << 20), Op::R],
+        // the write of the large entry is cut inside its payload
+        vec![Op::O(dflt), Op::A(1), Op::X(big, 10_000_000), Op::O(dflt), Op::R, Op::N, Op::A(1), Op::C, Op::O(dflt), Op::R, Op::N],
+        // ... one byte before its end, and complete but unacknowledged
+        vec![Op::O(dflt), Op::A(1), Op::X(big, full - 1), Op::O(dflt), Op::R, Op::N, Op::X(big, full), Op::O(dflt), Op::R, Op::N, Op::A(1), Op::R],
+        // enlarged limit, a 33 MB entry followed by a 17 MB one, flush + restart as the ingester does
+        vec![Op::O(4 * dflt), Op::A(1), Op::A(huge), Op::A(big), Op::A(1), Op::T(3), Op::F(3), Op::C, Op::L, Op::O(4 * dflt), Op::E(3), Op::T(4), Op::R, Op::N, Op::A(1), Op::C, Op::O(4 * dflt), Op::R],
+    ];
+    if thorough {
+        v.push(vec![Op::O(dflt), Op::A(huge), Op::A(huge), Op::C, Op::O(dflt), Op::R, Op::N, Op::A(big), Op::C, Op::O(dflt), Op::R, Op::N]);
+        v.push(vec![Op::O(0), Op::A(big), Op::X(huge, 22), Op::O(0), Op::R, Op::A(huge), Op::C, Op::O(0), Op::R, Op::N]);
+    }
+    v
+}
+
 /// regression cases: the two defects that were repaired, and proof-derived corners
 fn corpus(pool: &Pool) -> Vec<Vec<Op>> {
     let e = entry_size(pool, 1);
@@ -871,12 +907,21 @@ fn main() {
     let pool = make_pool();
     let mut model = Model::spawn(&args.model);
     let mut report = Report::new("C05");
+    report.max_samples = 14;
 
     if let Some(path) = &args.replay {
         let txt = std::fs::read_to_string(path).expect("replay file");
         let v: serde_json::Value = serde_json::from_str(&txt).expect("replay json");
         let c = &v["case"];
         let line = c.as_str().or_else(|| c["case"].as_str()).or_else(|| v["shrunk"].as_str()).unwrap_or("").to_string();
+        if let Some(rest) = line.strip_prefix("ING ") {
+            let (max, ops) = ingleg::dec_iops(rest);
+            let out = ingleg::run(&rt, max, &ops);
+            let m = ingleg::canon_model(&model.ask(&out.model_line));
+            let i = ingleg::canon_impl(&out.impl_line, &m);
+            println!("case : ING {}\nimpl : {}\nmodel: {}\noracle failures: {:?}", ingleg::enc_iops(max, &ops), i, m, out.failures);
+            std::process::exit(if out.failures.is_empty() && (model.is_null() || i == m) { 0 } else { 1 });
+        }
         let ops = decode_ops(&line);
         let (impl_out, bad, disciplined) = run_impl(&rt, &pool, &ops);
         let model_out = model.ask(&model_line(&pool, &ops));
@@ -886,6 +931,7 @@ fn main() {
 
     let mut cases: Vec<(String, Vec<Op>)> = corpus(&pool).into_iter().map(|c| ("corpus".to_string(), c)).collect();
     cases.extend(sweep_cases(&pool, &mut report, args.thorough()));
+    cases.extend(large_cases(&pool, args.thorough()).into_iter().map(|c| ("large-entry-oracle-only".to_string(), c)));
     let n_random = if args.thorough() { 10_000 } else { 400 };
     let mut rng = Rng::new(args.seed);
     for _ in 0..n_random {
@@ -893,8 +939,8 @@ fn main() {
         cases.push(("random".to_string(), gen_case(&mut r, &pool, &mut report)));
     }
     report.notes.push(format!(
-        "payload pool: {} real record batches, Arrow IPC payload sizes {:?}",
-        pool.payloads.len(), pool.payloads.iter().map(|p| p.len()).collect::<Vec<_>>()));
+        "payload pool: {} real record batches, Arrow IPC payload sizes {:?}; the payloads behind the first {} are used by the large-entry family only, which is ORACLE-ONLY (no model comparison: the bit-by-bit Gallina CRC-32 is too slow for tens of megabytes)",
+        pool.payloads.len(), pool.payloads.iter().map(|p| p.len()).collect::<Vec<_>>(), pool.n_model));
 
     let mut discipline_checked = 0u64;
     for (idx, (origin, ops)) in cases.iter().enumerate() {
@@ -904,11 +950,12 @@ fn main() {
         let (impl_out, bad, disciplined) = run_impl(&rt, &pool, ops);
         report.impl_runs += 1;
         report.bump(if disciplined { "history.caller_discipline_respected" } else { "history.outside_discipline_or_crash_model" });
+        let oracle_only = origin == "large-entry-oracle-only";
         let line = model_line(&pool, ops);
-        let (differs, model_out) = model.differs(&line, &impl_out);
-        if idx % 97 == 0 || origin == "corpus" {
-            report.sample(json!({"history": key, "impl": impl_out.split(';').skip(pool.payloads.len()).collect::<Vec<_>>().join(";"),
-                                 "model": model_out.split(';').skip(pool.payloads.len()).collect::<Vec<_>>().join(";")}));
+        let (differs, model_out) = if oracle_only { (false, "not run (oracle-only family)".to_string()) } else { model.differs(&line, &impl_out) };
+        if idx % 97 == 0 || origin == "corpus" || oracle_only {
+            report.sample(json!({"history": key, "impl": impl_out.split(';').skip(pool.n_model).collect::<Vec<_>>().join(";"),
+                                 "model": model_out.split(';').skip(pool.n_model).collect::<Vec<_>>().join(";")}));
         }
         if differs {
             let shrunk = ddmin(ops, &mut |cand: &[Op]| {
@@ -930,10 +977,10 @@ fn main() {
             report.oracle_violation("", &sbad.join("; "), json!({"case": encode_ops(&shrunk), "original": key}));
         }
         // the classifier used by the oracle must not be more generous than op_ok of the model
-        if !model.is_null() && (origin == "corpus" || idx % 7 == 0) {
+        if !model.is_null() && !oracle_only && (origin == "corpus" || idx % 7 == 0) {
             let mine = discipline_flags(&rt, &pool, ops);
             let theirs = model.ask(&format!("?{}", line));
-            let theirs: Vec<&str> = theirs.split(';').skip(pool.payloads.len()).collect();
+            let theirs: Vec<&str> = theirs.split(';').skip(pool.n_model).collect();
             discipline_checked += 1;
             for (i, (m, t)) in mine.iter().zip(theirs.iter()).enumerate() {
                 if *m == Some(true) && *t == "0" {
@@ -946,6 +993,16 @@ fn main() {
                 }
             }
         }
+    }
+    // the ingester leg: the real Ingester drives the WAL
+    let n_ing = if args.thorough() { 2_000 } else { 150 };
+    for (k, (max, ops)) in ingleg::corpus().into_iter().enumerate() {
+        ingleg::check_case(&rt, &mut model, &mut report, "ingester-corpus", max, &ops, k < 2);
+    }
+    for k in 0..n_ing {
+        let mut r = rng.fork();
+        let (max, ops) = ingleg::gen(&mut r, &mut report);
+        ingleg::check_case(&rt, &mut model, &mut report, "ingester-random", max, &ops, k == 0);
     }
     report.notes.push(format!("model calls: {}; discipline classifier cross-checked on {} histories", model.calls, discipline_checked));
     report.write(&args.out);
